@@ -165,3 +165,55 @@ package processor
 //@   ensures [numeric-order] implies(uf("rankOf", dTypeRank, valueA, op) == RANK_NUMERIC && uf("rankOf", dTypeRank, valueB, op) == RANK_NUMERIC && typedKey(valueA, op) && typedKey(valueB, op), (result == EQUAL) == (uf("floatOf", float64, valueA) == uf("floatOf", float64, valueB)) && (result == dirOf(LESS, asc)) == (uf("floatOf", float64, valueA) < uf("floatOf", float64, valueB)))
 //@   ensures [string-order] implies(uf("rankOf", dTypeRank, valueA, op) == RANK_STRING && uf("rankOf", dTypeRank, valueB, op) == RANK_STRING && typedKey(valueA, op) && typedKey(valueB, op), (result == EQUAL) == (uf("strOf", string, valueA) == uf("strOf", string, valueB)) && (result == dirOf(LESS, asc)) == (uf("strOf", string, valueA) < uf("strOf", string, valueB)))
 //@ end
+
+// ---- C06 (one or several upstream streams): consumers skip a stream that
+// reports IsExhausted, and a k-way merge parks the unconsumed tail of an input
+// with SetUnusedDataFromLastFetch.  Representation invariant of CachedStream:
+// a stream that holds parked rows is not exhausted, and the parked rows are
+// what the next Fetch returns (once).
+//@ spec cachedInv(cs *CachedStream) bool = implies(cs.unusedDataFromLastFetch != nil, !cs.isExhausted)
+//@ func (*CachedStream).SetUnusedDataFromLastFetch
+//@   props C06
+//@   requires cs != nil
+//@   modifies cs.unusedDataFromLastFetch, cs.isExhausted
+//@   ensures [parked] cs.unusedDataFromLastFetch == iqr
+//@   ensures [parked-rows-keep-the-stream-alive] cachedInv(cs)
+//@ end
+
+//@ func (*CachedStream).IsExhausted
+//@   props C06
+//@   pure
+//@   ensures result == cs.isExhausted
+//@ end
+
+//@ func (*CachedStream).Fetch
+//@   props C06
+//@   requires cs != nil && cachedInv(cs) && io.EOF != nil
+//@   ensures [parked-rows-are-served-first] implies(old(cs.unusedDataFromLastFetch) != nil, result0 == old(cs.unusedDataFromLastFetch) && result1 == nil)
+//@   ensures [invariant] cachedInv(cs)
+//@   ensures [exhausted-stays-eof] implies(old(cs.isExhausted), result0 == nil && result1 == io.EOF)
+//@   site callret cs.stream.Fetch #1:
+//@     assume cs.unusedDataFromLastFetch == old(cs.unusedDataFromLastFetch) && cs.isExhausted == old(cs.isExhausted)
+//@   note UNCHECKED site assumption: the wrapped stream's Fetch (an interface call) does not write this wrapper's own fields
+//@ end
+
+// ---- C03 (the answer does not depend on how events were split into blocks
+// and segments; every block of the range is searched exactly once): a block is
+// recorded as processed exactly when it is handed out for search in this
+// round.  A block that is deferred (below the round's cut-off) must stay
+// unmarked so that a later round picks it up; a block that is handed out must
+// be marked so that it is not searched twice.
+//@ ghostdecl blkPendingMark int
+//@ func (*Searcher).getFilteredBlocks
+//@   props C03
+//@   ghostinit ghost(0, "blkPendingMark") == 0
+//@   loop 1:
+//@     invariant [every-handed-out-block-is-marked] ghost(0, "blkPendingMark") == 0
+//@   site call append #1:
+//@     assert [handed-out-once] ghost(0, "blkPendingMark") == 0
+//@     ghostset ghost(0, "blkPendingMark") = 1
+//@   site mapupdate s.processedBlocks[ #2:
+//@     assert [marked-only-when-handed-out] ghost(0, "blkPendingMark") == 1
+//@     ghostset ghost(0, "blkPendingMark") = 0
+//@   ensures [nothing-left-unmarked] ghost(0, "blkPendingMark") == 0
+//@ end
